@@ -85,7 +85,7 @@ def topo_order(rng, n, edges):
     return out
 
 
-def gen_scenario(rng, name, big=False, known_patterns=0.04, modes="MMMMAAWTT"):
+def gen_scenario(rng, name, big=False, known_patterns=0.04, modes="MMMMMAAWTTPP"):
     """Returns {"name", "mode", "text" (harness input), "n", "edges", "tags"}."""
     mode = rng.choice(modes)
     n = rng.randint(13, 30) if big else rng.choice([2, 3, 3, 4, 4, 5, 5, 6, 6, 7, 8, 9, 10, 12])
@@ -285,6 +285,10 @@ def gen_scenario(rng, name, big=False, known_patterns=0.04, modes="MMMMAAWTT"):
                     helpers_ran.add(actor)
                     text.append("@%d run %s" % (actor, repr(float(dates[p - 1]))))
                 text.append("@%d %s" % (actor, t))
+    if mode == "P" and rng.random() < 0.5:
+        # the waiter actors are spawned right after the creations (they then block on vetoed / unassigned activities)
+        k = max(i for i, t in enumerate(text) if t.startswith("new ")) + 1
+        text.insert(k, "waiters")
     if mode == "W":
         text.append("waitorder " + " ".join(names[x] for x in topo_order(rng, n, edges)))
     text.append("E")
